@@ -96,4 +96,4 @@ spec_deep = st.one_of(
 
 
 def parts():
-    return [Part("compositions", check, strategy=spec_st, strategy_thorough=spec_deep, budget={"quick": 1600, "thorough": 100000})]
+    return [Part("compositions", check, strategy=spec_st, strategy_thorough=spec_deep, budget={"quick": 1600, "thorough": 100000}, fuzz={"thorough": 6000})]
